@@ -22,7 +22,9 @@ def run(ctx: Ctx) -> None:
     ctx.rule("R-SENT-split", "sentence ends are detected per word by an end-anchored pattern; default splitter has no minimum")
     ctx.rule("R-CONSUMER", "`semantic` selects the sentence wrapper")
     ctx.rule("R-LAYOUT-Y4", "both wrapper factories apply the same decorator stack")
+    ctx.rule("R-ACCT", "columns handed to the wrapping core: a sentence starts at the column of its line; a new line starts at the continuation offset")
     ctx.run(wrap.check_sentence_lines)
     ctx.run(wrap.check_sentence_split)
     ctx.run(optflow.check_consumers, ("semantic",))
     ctx.run(layout.check_decorator_stack)
+    ctx.run(wrap.check_accounting, True)
